@@ -152,6 +152,11 @@ class Space(DNASpec):
             f'Number of child values in DNA ({len(dna.children)}) does not '
             f'match the number of elements ({len(self.elements)}). Child '
             f'values: {dna.children!r}, Location: {self.location.path}.')
+      if dna.value is not None:
+        raise ValueError(
+            f'Expect a DNA without value for a space of multiple elements, '
+            f'but encountered value {dna.value!r}. '
+            f'Location: {self.location.path}.')
       for i, elem in enumerate(self.elements):
         elem.validate(dna[i])
 
